@@ -129,6 +129,15 @@ func vectors(n, base int) [][]int {
 	return out
 }
 
+func allEq(xs []int, v int) bool {
+	for _, x := range xs {
+		if x != v {
+			return false
+		}
+	}
+	return true
+}
+
 func constVec(n, v int) []int {
 	o := make([]int, n)
 	for i := range o {
@@ -276,10 +285,11 @@ func partB(r *eng.Run) {
 	quickLong := !r.Thorough()
 	sets := chainSets(fullL, maxL)
 	if quickLong {
-		// quick tier: of the factorised long chains keep lengths 4 and 6 only
+		// quick tier: of the factorised long chains keep length 4, and of length 6 the acyclic / back-to-N0 / self-referencing
+		// shapes with (all TTL vectors, no remainders) and (all remainder vectors, TTL 1m)
 		var s2 []chainSpec
 		for _, c := range sets {
-			if c.L <= fullL || c.L == 4 || (c.L == 6 && (c.Term == -1 || c.Term == 0 || c.Term == 5)) {
+			if c.L <= fullL || c.L == 4 || (c.L == 6 && (c.Term == -1 || c.Term == 0 || c.Term == 5) && (allEq(c.Rem, 0) || allEq(c.TTL, 1))) {
 				s2 = append(s2, c)
 			}
 		}
